@@ -3,6 +3,10 @@ CHECKS = {
   "text": "Theorems for every raster shape and every assignment of values: each cell decodes to nodata / itself / the linear index of (row+dr, col+dc) exactly as the conventions say (decode_spec for D8, LDD, NEXTXY), the decoded graph is closed (decode_wf), pits are exactly the self-draining cells in ascending order, masked cells carry nodata, inference picks the first format whose validity test holds; drdc and the 3x3 tables are regenerated from the source on every run and the table lemmas are complete enumerations. The decoder loops are hand models tied by an exhaustive small-raster + random API-level correspondence and an independent oracle of the documented conventions.",
   "note": "Trusted: Coq kernel, the ast translator for tables/drdc, extraction + 40-line OCaml driver (cross-checked by vm_compute on a sample), harness. from_array loop bodies are modelled by hand (correspondence only). np.log2 on legal codes assumed exact.",
  },
+ "C05": {
+  "text": "Theorems for every network, every topological order of it, every outlet list and id vector: the basin label of a cell is the seeded id of the first outlet met on its downstream walk, 0 if none (basins_spec via the generic down-sweep theorem); with the default outlets every ordered cell gets the id of the pit its walk ends in; basins are upstream-closed; labels are 0 or one of the ids; the outlet query returns exactly the labelled cells whose downstream cell leaves the region (iff), sorted by label, and on a basin map with distinct positive ids exactly one outlet per basin (round trip). Tied to the code by kernel- and API-level correspondence (exhaustive small graphs x outlet subsets, random forests, xy/idxs/default outlets, id dtypes, bad ids) plus an independent walk-downstream oracle.",
+  "note": "Trusted: Coq kernel, extraction + driver, harness. The loops of fillnodata_upstream / region_outlets are hand models (correspondence only). dtype pass-through of ids is asserted by the harness, not modelled. Topological order is an input: the theorems hold for every order satisfying Net.topo, which C03 establishes for the implementation's idxs_seq.",
+ },
 }
 NOT_APPLICABLE = {
  "C07": "compares two language implementations (CPython vs Numba JIT) of the same source; a Gallina model of pyflwdir has one semantics and cannot express their disagreement (DESIGN.md section 5, C07)",
